@@ -9,7 +9,7 @@
    and slices (None / Ellipsis / () are the empty list). *)
 From Coq Require Import ZArith List Bool.
 Import ListNotations.
-From GV Require Import Common.Wire Common.PyInt gen.Gen_array.
+From GV Require Import Common.Wire Common.PyInt gen.Gen_array gen.Gen_viewprog.
 Open Scope Z_scope.
 
 Inductive ventry := VInt (i : Z) | VSlice (s : slice).
@@ -192,6 +192,201 @@ Fixpoint to_original_view (indices : list (option Z)) (view : list ventry) : lis
 Definition indices_view (indices : list (option Z)) : list ventry :=
   map (fun o => match o with Some i => VInt i | None => VSlice full_slice end) indices.
 
+(* ---------- whole-array leaves: ParsedSubsetState / ParsedComponentLink (glue/core/parse.py) ---------- *)
+
+(* An array is its row-major list of values; a view (of ANY kind: basic, index arrays, boolean mask, the implicit view
+   of an IndexedData) is the list of flat positions it selects, in the order of the result. *)
+Definition gather {A} (d : A) (pos : list Z) (l : list A) : list A := map (fun i => nth (Z.to_nat i) l d) pos.
+
+Fixpoint map2 {A B C} (f : A -> B -> C) (l1 : list A) (l2 : list B) : list C :=
+  match l1, l2 with
+  | a :: r1, b :: r2 => f a b :: map2 f r1 r2
+  | _, _ => []
+  end.
+
+(* expressions over one referenced attribute {x}; a scalar is broadcast to the size of the array *)
+Inductive aexpr :=
+| AX                              (* {x} *)
+| AConst (c : Z)
+| AArange                         (* np.arange({x}.size).reshape({x}.shape) : position-dependent *)
+| ASize                           (* {x}.size *)
+| ASum (a : aexpr)                (* np.sum(a) *)
+| AMax (a : aexpr)                (* np.max(a) *)
+| AMin (a : aexpr)                (* np.min(a) *)
+| ACumsum (a : aexpr)             (* np.cumsum(a).reshape(np.shape(a)) *)
+| ARoll (k : Z) (a : aexpr)       (* np.roll(a, k) *)
+| AAdd (a b : aexpr) | ASub (a b : aexpr) | AMul (a b : aexpr).
+
+Inductive bexpr :=
+| BGt (a b : aexpr) | BGe (a b : aexpr) | BEq (a b : aexpr)
+| BAnd (p q : bexpr) | BOr (p q : bexpr) | BNot (p : bexpr).
+
+Definition zsum (l : list Z) : Z := fold_right Z.add 0 l.
+Definition zmax (l : list Z) : Z := match l with [] => 0 | x :: r => fold_right Z.max x r end.
+Definition zmin (l : list Z) : Z := match l with [] => 0 | x :: r => fold_right Z.min x r end.
+Fixpoint cumsum (acc : Z) (l : list Z) : list Z :=
+  match l with [] => [] | x :: r => (acc + x) :: cumsum (acc + x) r end.
+(* np.roll: result[i] = a[(i - k) mod n] *)
+Definition roll (k : Z) (l : list Z) : list Z :=
+  map (fun i => nth (Z.to_nat ((Z.of_nat i - k) mod zlen l)) l 0) (seq 0 (length l)).
+
+Fixpoint aeval (e : aexpr) (xs : list Z) : list Z :=
+  let n := length xs in
+  match e with
+  | AX => xs
+  | AConst c => repeat c n
+  | AArange => map Z.of_nat (seq 0 n)
+  | ASize => repeat (Z.of_nat n) n
+  | ASum a => repeat (zsum (aeval a xs)) n
+  | AMax a => repeat (zmax (aeval a xs)) n
+  | AMin a => repeat (zmin (aeval a xs)) n
+  | ACumsum a => cumsum 0 (aeval a xs)
+  | ARoll k a => roll k (aeval a xs)
+  | AAdd a b => map2 Z.add (aeval a xs) (aeval b xs)
+  | ASub a b => map2 Z.sub (aeval a xs) (aeval b xs)
+  | AMul a b => map2 Z.mul (aeval a xs) (aeval b xs)
+  end.
+
+Fixpoint beval (e : bexpr) (xs : list Z) : list bool :=
+  match e with
+  | BGt a b => map2 Z.gtb (aeval a xs) (aeval b xs)
+  | BGe a b => map2 Z.geb (aeval a xs) (aeval b xs)
+  | BEq a b => map2 Z.eqb (aeval a xs) (aeval b xs)
+  | BAnd p q => map2 andb (beval p xs) (beval q xs)
+  | BOr p q => map2 orb (beval p xs) (beval q xs)
+  | BNot p => map negb (beval p xs)
+  end.
+
+(* element-wise: the value at a position depends on the referenced value at that position only *)
+Fixpoint aelementwise (e : aexpr) : bool :=
+  match e with
+  | AX | AConst _ => true
+  | AAdd a b | ASub a b | AMul a b => aelementwise a && aelementwise b
+  | _ => false
+  end.
+Fixpoint belementwise (e : bexpr) : bool :=
+  match e with
+  | BGt a b | BGe a b | BEq a b => aelementwise a && aelementwise b
+  | BAnd p q | BOr p q => belementwise p && belementwise q
+  | BNot p => belementwise p
+  end.
+
+(* ParsedSubsetState.to_mask(data, view): the leaf is a function of the WHOLE array, the view is applied afterwards *)
+Definition parsed_mask_view (e : bexpr) (xs : list Z) (pos : list Z) : list bool := gather false pos (beval e xs).
+(* pushing the view inside (every {x} read as data[x, view]): what ParsedComponentLink.compute does for derived attributes *)
+Definition parsed_mask_pushdown (e : bexpr) (xs : list Z) (pos : list Z) : list bool := beval e (gather 0 pos xs).
+Definition parsed_values_view (e : aexpr) (xs : list Z) (pos : list Z) : list Z := gather 0 pos (aeval e xs).
+Definition parsed_values_pushdown (e : aexpr) (xs : list Z) (pos : list Z) : list Z := aeval e (gather 0 pos xs).
+
+(* a model request and a session of requests against the same array: the model has no hidden state, the answers are a map *)
+Inductive request := RFull | RView (pos : list Z).
+Definition session {Q A} (answer : Q -> A) (rs : list Q) : list A := map answer rs.
+Definition parsed_answer (e : bexpr) (xs : list Z) (r : request) : list bool :=
+  match r with RFull => beval e xs | RView pos => parsed_mask_view e xs pos end.
+
+(* ---------- categorical attributes: categories and codes (glue/utils/array.py categorical_ndarray) ---------- *)
+
+Fixpoint insert_sorted (x : Z) (l : list Z) : list Z :=
+  match l with
+  | [] => [x]
+  | y :: r => if x <? y then x :: l else if x =? y then l else y :: insert_sorted x r
+  end.
+(* unique(): the sorted distinct labels *)
+Definition cat_unique (l : list Z) : list Z := fold_right insert_sorted [] l.
+Fixpoint index_of (x : Z) (cats : list Z) : Z :=
+  match cats with
+  | [] => -1
+  | c :: r => if x =? c then 0 else let k := index_of x r in if k <? 0 then -1 else 1 + k
+  end.
+(* index_lookup(data, categories) *)
+Definition index_lookup (l cats : list Z) : list Z := map (fun x => index_of x cats) l.
+
+Definition cat_full (l : list Z) : list Z * list Z := (cat_unique l, index_lookup l (cat_unique l)).
+(* a view inherits the categories of its parent (__array_finalize__) and looks its own labels up in them *)
+Definition cat_view (pos : list Z) (l : list Z) : list Z * list Z :=
+  (cat_unique l, index_lookup (gather 0 pos l) (cat_unique l)).
+(* a view that does NOT inherit them derives categories from the labels it contains *)
+Definition cat_view_recomputed (pos : list Z) (l : list Z) : list Z * list Z := cat_full (gather 0 pos l).
+Definition cat_answer (l : list Z) (r : request) : list Z * list Z :=
+  match r with RFull => cat_full l | RView pos => cat_view pos l end.
+
+(* ---------- the translated view code (coq/gen/Gen_viewprog.v, regenerated from glue on every run) ---------- *)
+
+Definition venv (A : Type) := list (nat * A).
+Fixpoint vlookup {A} (env : venv A) (k : nat) : option A :=
+  match env with
+  | [] => None
+  | (n, a) :: r => if Nat.eqb n k then Some a else vlookup r k
+  end.
+
+(* full = evaluate(data); pushed = evaluate(data, view); index = Some (fun r => r[view]) when a view is given, None when view is None *)
+Fixpoint veval {A} (full pushed : A) (index : option (A -> A)) (env : venv A) (e : vexpr) : option A :=
+  match e with
+  | VEvalFull => Some full
+  | VEvalView => Some pushed
+  | VVar k => vlookup env k
+  | VIndexView e' =>
+      match index, veval full pushed index env e' with
+      | Some f, Some a => Some (f a)
+      | _, _ => None
+      end
+  end.
+
+(* the environment after the statement and the returned value, if any; None = an error (unknown name, r[None]) *)
+Fixpoint vexec {A} (full pushed : A) (index : option (A -> A)) (s : vstmt) (env : venv A) : option (venv A * option A) :=
+  match s with
+  | VSkip => Some (env, None)
+  | VAssign k e => match veval full pushed index env e with Some a => Some ((k, a) :: env, None) | None => None end
+  | VReturn e => match veval full pushed index env e with Some a => Some (env, Some a) | None => None end
+  | VIfViewNotNone body => match index with Some _ => vexec full pushed index body env | None => Some (env, None) end
+  | VSeq a b =>
+      match vexec full pushed index a env with
+      | Some (env', None) => vexec full pushed index b env'
+      | other => other
+      end
+  end.
+Definition vrun {A} (full pushed : A) (index : option (A -> A)) (s : vstmt) : option A :=
+  match vexec full pushed index s [] with Some (_, Some a) => Some a | _ => None end.
+
+(* a translated to_mask / compute on the expression e, the array xs and view = None | Some positions *)
+Definition gen_mask (prog : vstmt) (e : bexpr) (xs : list Z) (view : option (list Z)) : option (list bool) :=
+  match view with
+  | None => vrun (beval e xs) (beval e xs) None prog
+  | Some pos => vrun (beval e xs) (parsed_mask_pushdown e xs pos) (Some (gather false pos)) prog
+  end.
+Definition gen_values (prog : vstmt) (e : aexpr) (xs : list Z) (view : option (list Z)) : option (list Z) :=
+  match view with
+  | None => vrun (aeval e xs) (aeval e xs) None prog
+  | Some pos => vrun (aeval e xs) (parsed_values_pushdown e xs pos) (Some (gather 0 pos)) prog
+  end.
+
+(* a categorical array: its labels and the categories it has stored (_categories), if any *)
+Record carr := { c_labels : list Z; c_cats : option (list Z) }.
+(* the `categories` property: what is stored, otherwise computed from the labels *)
+Definition get_categories (a : carr) : list Z := match c_cats a with Some c => c | None => cat_unique (c_labels a) end.
+Fixpoint fcond_eval (c : fcond) (is_cat : bool) (obj : carr) : bool :=
+  match c with
+  | FIsCategorical => is_cat
+  | FHasCategories => match c_cats obj with Some _ => true | None => false end
+  | FAnd a b => fcond_eval a is_cat obj && fcond_eval b is_cat obj
+  | FOr a b => fcond_eval a is_cat obj || fcond_eval b is_cat obj
+  | FNot a => negb (fcond_eval a is_cat obj)
+  end.
+(* the categories stored in a new view after __array_finalize__(self, obj) *)
+Fixpoint fexec (s : fstmt) (is_cat : bool) (obj : carr) (cur : option (list Z)) : option (list Z) :=
+  match s with
+  | FSkip => cur
+  | FSetCategories FCategoriesProperty => Some (get_categories obj)
+  | FSetCategories FCategoriesRaw => c_cats obj
+  | FIf c body => if fcond_eval c is_cat obj then fexec body is_cat obj cur else cur
+  | FSeq a b => fexec b is_cat obj (fexec a is_cat obj cur)
+  end.
+(* categories and codes of the view `pos` of a column l whose categories have (warm) / have not (cold) been looked up before *)
+Definition gen_cat_view (prog : fstmt) (warm : bool) (pos l : list Z) : list Z * list Z :=
+  let parent := {| c_labels := l; c_cats := if warm then Some (cat_unique l) else None |} in
+  let v := {| c_labels := gather 0 pos l; c_cats := fexec prog true parent None |} in
+  (get_categories v, index_lookup (c_labels v) (get_categories v)).
+
 (* ---------- wire ---------- *)
 Definition dec_slice (t : tree) : slice :=
   Slice (opt_z (kid 0 t)) (opt_z (kid 1 t)) (opt_z (kid 2 t)).
@@ -207,6 +402,49 @@ Fixpoint flat_index (shape i : list Z) : Z :=
   end.
 
 Definition nthb (l : list bool) (k : Z) : bool := nth (Z.to_nat k) l false.
+
+Fixpoint dec_aexpr (t : tree) : aexpr :=
+  match t with
+  | T 1 [T c _] => AConst c
+  | T 2 _ => AArange
+  | T 3 _ => ASize
+  | T 4 [a] => ASum (dec_aexpr a)
+  | T 5 [a] => AMax (dec_aexpr a)
+  | T 6 [a] => ACumsum (dec_aexpr a)
+  | T 7 [T k _; a] => ARoll k (dec_aexpr a)
+  | T 8 [a; b] => AAdd (dec_aexpr a) (dec_aexpr b)
+  | T 9 [a; b] => ASub (dec_aexpr a) (dec_aexpr b)
+  | T 10 [a; b] => AMul (dec_aexpr a) (dec_aexpr b)
+  | T 12 [a] => AMin (dec_aexpr a)
+  | _ => AX
+  end.
+Fixpoint dec_bexpr (t : tree) : bexpr :=
+  match t with
+  | T 1 [a; b] => BGe (dec_aexpr a) (dec_aexpr b)
+  | T 2 [a; b] => BEq (dec_aexpr a) (dec_aexpr b)
+  | T 3 [p; q] => BAnd (dec_bexpr p) (dec_bexpr q)
+  | T 4 [p; q] => BOr (dec_bexpr p) (dec_bexpr q)
+  | T 5 [p] => BNot (dec_bexpr p)
+  | T _ [a; b] => BGt (dec_aexpr a) (dec_aexpr b)
+  | _ => BGt AX AX
+  end.
+
+(* a view on the wire: T 0 entries = a basic view (positions computed here with sel_of / to_under);
+   T 1 [result shape; flat positions] = any other view, positions supplied (numpy's own indexing of arange(size)) *)
+(* the flat (row-major) positions a basic view selects, in the order of the result *)
+Definition basic_positions (shape : list Z) (view : list ventry) : list Z :=
+  let sels := sel_of shape view in
+  map (fun j => flat_index shape (to_under sels j)) (box (sel_shape sels)).
+
+Definition positions_of (shape : list Z) (t : tree) : option (list Z * list Z) :=
+  match t with
+  | T 1 [rsh; pos] => Some (to_zs rsh, to_zs pos)
+  | T 0 _ =>
+      let view := dec_view t in
+      if negb (view_ok shape view) then None else
+      Some (sel_shape (sel_of shape view), basic_positions shape view)
+  | _ => None
+  end.
 
 Definition enc_mask (r : list Z * (list Z -> bool)) : tree :=
   let '(sh, m) := r in T 1 [zs sh; bools (map m (box sh))].
@@ -241,5 +479,45 @@ Definition run_case (t : tree) : tree :=
       if negb (view_ok shape ov) then err IndexError else
       let sels := sel_of shape ov in
       T 1 [zs (sel_shape sels); zs (map (fun j => flat_index shape (to_under sels j)) (box (sel_shape sels)))]
+  (* categorical attribute: categories and codes of the full column (T 2 []) / of a view, through the TRANSLATED __array_finalize__;
+     warm = the categories of the column had been looked up before the view was taken (full-first) or not (view-first) *)
+  | T 5 [sh; lab; vw; T warm _] =>
+      match vw with
+      | T 2 _ => let '(cats, codes) := cat_full (to_zs lab) in T 1 [sh; zs codes; zs cats]
+      | _ =>
+        match positions_of (to_zs sh) vw with
+        | None => err IndexError
+        | Some (rsh, pos) =>
+            let '(cats, codes) := gen_cat_view finalize_prog (negb (warm =? 0)) pos (to_zs lab) in T 1 [zs rsh; zs codes; zs cats]
+        end
+      end
+  (* ParsedSubsetState.to_mask(data, view), the TRANSLATED function; T 2 [] = view is None *)
+  | T 6 [sh; xs; be; vw] =>
+      match vw with
+      | T 2 _ => match gen_mask to_mask_prog (dec_bexpr be) (to_zs xs) None with Some m => T 1 [sh; bools m] | None => err TypeError end
+      | _ =>
+        match positions_of (to_zs sh) vw with
+        | None => err IndexError
+        | Some (rsh, pos) =>
+            match gen_mask to_mask_prog (dec_bexpr be) (to_zs xs) (Some pos) with Some m => T 1 [zs rsh; bools m] | None => err TypeError end
+        end
+      end
+  (* ParsedComponentLink.compute(data, view), the TRANSLATED function *)
+  | T 7 [sh; xs; ae; vw] =>
+      match vw with
+      | T 2 _ => match gen_values link_compute_prog (dec_aexpr ae) (to_zs xs) None with Some m => T 1 [sh; zs m] | None => err TypeError end
+      | _ =>
+        match positions_of (to_zs sh) vw with
+        | None => err IndexError
+        | Some (rsh, pos) =>
+            match gen_values link_compute_prog (dec_aexpr ae) (to_zs xs) (Some pos) with Some m => T 1 [zs rsh; zs m] | None => err TypeError end
+        end
+      end
+  (* the same attribute as the property demands it: the view of the full evaluation *)
+  | T 8 [sh; xs; ae; vw] =>
+      match positions_of (to_zs sh) vw with
+      | None => err IndexError
+      | Some (rsh, pos) => T 1 [zs rsh; zs (parsed_values_view (dec_aexpr ae) (to_zs xs) pos)]
+      end
   | _ => err (-2)
   end.
